@@ -56,8 +56,23 @@ pub fn check_progress(sc: &Scenario, tr: &Trace) -> Result<Vec<&'static str>, Fa
     let mut held = vec![false; size as usize + 1];
     let mut r_pref: Vec<(u64, u64)> = vec![];
     let mut distinct = 0u64;
+    // The moment a delivered datagram is *processed* is not the moment it reached the entity: the transport handler does not
+    // look at its inbox while it is busy serialising an outgoing PDU (tau), so under sustained outgoing traffic a datagram can
+    // wait several tau. The receiver's own FileSegmentRecv indication marks the processing exactly; the bytes are counted
+    // from its offset and length (the puppet families deliver exactly what the indication then names).
+    // Only the *time* is taken from the indication; which bytes arrived is taken from the delivered datagram itself.
+    let seg_inds: Vec<(u64, u64)> = tr
+        .inds_of(p.to, id)
+        .iter()
+        .filter_map(|r| match &r.ind {
+            Indication::FileSegmentRecv(f) => Some((r.t, f.offset)),
+            _ => None,
+        })
+        .collect();
+    let mut used = vec![false; seg_inds.len()];
+    let mut processed: Vec<(u64, u64, u64)> = vec![]; // (processing time, offset, len)
     for (t, to, di) in &tr.deliveries {
-        if *to != p.to || *t > r_end {
+        if *to != p.to {
             continue;
         }
         let d = &tr.dgrams[*di];
@@ -65,16 +80,27 @@ pub fn check_progress(sc: &Scenario, tr: &Trace) -> Result<Vec<&'static str>, Fa
             continue;
         }
         if let Some(PDUPayload::FileData(FileDataPDU::Unsegmented(fd))) = d.pdu.as_ref().map(|x| &x.payload) {
-            for b in fd.offset..fd.offset + fd.file_data.len() as u64 {
-                if (b as usize) < held.len() && !held[b as usize] {
-                    held[b as usize] = true;
-                    distinct += 1;
-                } else if b as usize >= held.len() {
-                    distinct += 1;
-                }
+            if let Some(k) = (0..seg_inds.len()).find(|k| !used[*k] && seg_inds[*k].0 >= *t && seg_inds[*k].1 == fd.offset) {
+                used[k] = true;
+                processed.push((seg_inds[k].0, fd.offset, fd.file_data.len() as u64));
             }
-            r_pref.push((*t, distinct));
         }
+    }
+    // stable: datagrams are processed in the order of their delivery
+    processed.sort_by_key(|x| x.0);
+    for (t, off, len) in processed {
+        if t > r_end {
+            continue;
+        }
+        for b in off..off + len {
+            if (b as usize) < held.len() && !held[b as usize] {
+                held[b as usize] = true;
+                distinct += 1;
+            } else if b as usize >= held.len() {
+                distinct += 1;
+            }
+        }
+        r_pref.push((t, distinct));
     }
     let receiver_allowed = |t: u64| -> Vec<u64> {
         let lo = r_pref.iter().filter(|x| x.0 + 2 * tau + 4 <= t).count();
@@ -309,11 +335,11 @@ overlapping, duplicated, out of order) each followed by a keep-alive prompt to a
     ];
     let part = C20Part;
     ctx.run_known_replays(&part);
-    let n = ctx.tier.pick(40_000u64, 500_000);
+    let n = ctx.tier.pick(40_000u64, 2_000_000);
     ctx.section = "real-daemons".into();
     ctx.drive_proptest(&part, strategy(), n, 200);
     ctx.section = "puppet-overlapping-segments".into();
-    let n = ctx.tier.pick(20_000u64, 300_000);
+    let n = ctx.tier.pick(20_000u64, 1_000_000);
     let seed = ctx.seed;
     ctx.drive_indexed(&part, n, false, |i| puppet_overlaps(mix(seed, i)));
     ctx.section.clear();
